@@ -537,3 +537,5 @@ LEVEL_TEXT = ("Machine-checked Lean 4 theorems about an executable model of Head
               "and per section + call-pattern instrumentation; oracle: canonical dump, byte-identical write(), mutation independence.")
 LEVEL_NOTE = ("Independence of the copy and byte-identity of write() are established by the oracle on the inputs run (object identity and the "
               "writer are outside this model). numpy's own pickling of arrays is trusted and compared (content + dtype).")
+
+RULE = RULE + ("; ALSO (fifth session): the index of a READ file edited (in place, top row cut, first sample replaced) before the copy is taken; header values that are numpy's `nan` object")
